@@ -35,7 +35,6 @@ package x509
 // decodes to the zero value, which is UnknownPublicKeyAlgorithm. (Before commit d59216b
 // [inverse] failed for Ed25519 and X25519, see the notes.)
 //@ func (PublicKeyAlgorithm).String
-//@   ensures [smoke] false
 //@   ensures [names] result == keyAlgorithmNames[ite(0 <= p && p < total_key_algorithms, p, UnknownPublicKeyAlgorithm)]
 //@   ensures [inverse] 0 < p && p < total_key_algorithms ==> has(publicKeyNameToAlgorithm, result) && publicKeyNameToAlgorithm[result] == p
 //@   ensures [inverse0] !(0 < p && p < total_key_algorithms) ==> !has(publicKeyNameToAlgorithm, result)
@@ -91,7 +90,6 @@ package x509
 //@ pred encOutP(sv, name, cur, x) = sv == x ==> arcsEq(cur, oidSignatureRSAPSS) && pssByName(name, x)
 //@ pred encOutN(sv, cur, x, r) = sv == x ==> !arcsEq(cur, oidSignatureRSAPSS) && arcsEq(signatureAlgorithmDetails[r].oid, cur) && allRowsAgree(cur, x)
 //@ func (*SignatureAlgorithm).MarshalJSON
-//@   ensures [smoke] false
 //@   requires s != nil && allocated(s)
 //@   loop 1 invariant fresh(aux.OID) && keptInt() && aux.Name == atentry(aux.Name) && marks9()
 //@   loop 1 invariant encInv(*s, it, aux.OID, MD2WithRSA, 0, oidSignatureMD2WithRSA)
@@ -112,7 +110,22 @@ package x509
 //@   loop 1 invariant encInv(*s, it, aux.OID, Ed25519Sig, 16, oidKeyEd25519)
 //@   loop 2 invariant fresh(aux.OID) && len(aux.OID) == len(val.oid) && keptInt() && aux.Name == atentry(aux.Name)
 //@   loop 2 invariant forall(k, 0, it, !spec.jmark(k) || aux.OID[k] == val.oid[k], spec.jmark(k)) && spec.jmark(it)
-//@   at call json.Marshal assert false
+//@   at call json.Marshal assert encOutN(*s, aux.OID, MD2WithRSA, 0)
+//@   at call json.Marshal assert encOutN(*s, aux.OID, MD5WithRSA, 1)
+//@   at call json.Marshal assert encOutN(*s, aux.OID, SHA1WithRSA, 3)
+//@   at call json.Marshal assert encOutN(*s, aux.OID, SHA256WithRSA, 4)
+//@   at call json.Marshal assert encOutN(*s, aux.OID, SHA384WithRSA, 5)
+//@   at call json.Marshal assert encOutN(*s, aux.OID, SHA512WithRSA, 6)
+//@   at call json.Marshal assert encOutP(*s, aux.Name, aux.OID, SHA256WithRSAPSS)
+//@   at call json.Marshal assert encOutP(*s, aux.Name, aux.OID, SHA384WithRSAPSS)
+//@   at call json.Marshal assert encOutP(*s, aux.Name, aux.OID, SHA512WithRSAPSS)
+//@   at call json.Marshal assert encOutN(*s, aux.OID, DSAWithSHA1, 10)
+//@   at call json.Marshal assert encOutN(*s, aux.OID, DSAWithSHA256, 11)
+//@   at call json.Marshal assert encOutN(*s, aux.OID, ECDSAWithSHA1, 12)
+//@   at call json.Marshal assert encOutN(*s, aux.OID, ECDSAWithSHA256, 13)
+//@   at call json.Marshal assert encOutN(*s, aux.OID, ECDSAWithSHA384, 14)
+//@   at call json.Marshal assert encOutN(*s, aux.OID, ECDSAWithSHA512, 15)
+//@   at call json.Marshal assert encOutN(*s, aux.OID, Ed25519Sig, 16)
 //@   modifies nothing
 //@   terminates
 //@ func (*SignatureAlgorithm).UnmarshalJSON
@@ -154,7 +167,6 @@ package x509
 // NoticeRefNumbers[idx][idx2] (idx2 an index of ExplicitTexts[idx]) failed - defect S6, see
 // /verif/notes/x509json.md.
 //@ func (*CertificatePoliciesData).MarshalJSON
-//@   ensures [smoke] false
 //@   requires cp != nil && polOuter(cp) && polInner(cp) && polAlloc(cp)
 //@   loop 1 invariant fresh(policies) && keptStr() && keptSlice()
 //@   loop 2 invariant fresh(cpsJSON.CPSUri) && keptStr() && keptSlice()
@@ -412,7 +424,6 @@ package x509
 // "returns a slice of parsed TorServiceDescriptorHash objects, or an error": total on attacker
 // bytes, terminates (every round consumes at least two octets), never both results.
 //@ func parseTorServiceDescriptorSyntax
-//@   ensures [smoke] false
 //@   loop 1 invariant fresh(descriptors) && forall(k, 0, len(descriptors), descriptors[k] != nil)
 //@   loop 1 decreases len(rest)
 //@   ensures result1 == nil ==> forall(k, 0, len(result0), result0[k] != nil)
